@@ -94,6 +94,7 @@ static int on_grant;		/* 0 hold, 1 return in callback, 2 release in callback */
 static int pending_return;
 static int in_callback;
 static long n_frames;
+static unsigned int cur_services;	/* model of the services granted to this connection */
 
 static void do_notify (int flags);
 
@@ -334,6 +335,7 @@ lib_main (int argc, char **argv)
 			} else {
 				vbi_raw_decoder *rd = vbi_capture_parameters (cap);
 
+				cur_services = services;
 				fprintf (lg, "CON %.6f %.6f 0x%lx %ld 1 0x%x %d %d -\n", t0, now (),
 					 (unsigned long) a[0], a[1], services,
 					 rd ? rd->count[0] : -1, rd ? rd->count[1] : -1);
@@ -342,7 +344,11 @@ lib_main (int argc, char **argv)
 		}
 
 		case 'R': /* read k frames */
-			if (NULL != cap)
+			if (NULL != cap && 0 == cur_services) {
+				/* the daemon forwards nothing to a client without services */
+				fprintf (lg, "NOSUB %.6f\n", now ());
+				read_frames (-1, 30, 0);
+			} else if (NULL != cap)
 				read_frames (a[0], 0, 0);
 			break;
 
@@ -387,6 +393,8 @@ lib_main (int argc, char **argv)
 				r = vbi_capture_update_services (cap, (vbi_bool) a[2], TRUE,
 								 (unsigned int) a[0], (int) a[1], &err);
 				ctx = '-';
+				cur_services = (a[2] ? 0 : (cur_services & ~(unsigned int) a[0]))
+					| (NULL != err ? 0 : r);
 				rd = vbi_capture_parameters (cap);
 				fprintf (lg, "UPD %.6f %.6f 0x%lx %ld %ld 0x%x %d %d %d\n", t0, now (),
 					 (unsigned long) a[0], a[1], a[2], r, NULL != err,
